@@ -247,4 +247,16 @@ def mtl_structure(t):
 CHECKS = [mtl_structure(2), mtl_structure(3)]
 THOROUGH_CHECKS = [mtl_check(1)]
 
+
+def _with_transform_contracts():
+    """The statement follows from the structure of the pipeline AND the isolated contracts of the transforms it is made of:
+    those are obligations of this property too (C15: Grad, Jac, Aggregate, Stack / Conjunction composition; C06: Accumulate)."""
+    from .C06 import CHECKS as c06
+    from .C15 import CHECKS as c15
+    keep = ("grad", "jac", "aggregate", "stack2", "stack3", "stack_compute2", "conj_compute2", "init")
+    return [c for c in c15 if c.name in keep] + list(c06)
+
+
+CHECKS += _with_transform_contracts()
+
 VALIDATE_LAYOUT_PRIMS = True  # [V] the layout primitive contracts are sampled against real torch on every run
